@@ -191,7 +191,7 @@ func (h *hist) line(p string, extra ...string) string {
 	if len(h.noise) > 0 {
 		s += " noise=" + strings.Join(h.noise, ";")
 	}
-	for _, k := range []string{"f32", "f64", "tz", "civil"} {
+	for _, k := range []string{"f32", "f64", "tz", "civil", "jtext"} {
 		if len(h.ext[k]) > 0 {
 			s += " " + k + "=" + strings.Join(h.ext[k], ",")
 		}
@@ -204,7 +204,9 @@ func (h *hist) line(p string, extra ...string) string {
 	return s
 }
 
-func posStr(file string, off int64) string { return hx([]byte(file)) + ":" + strconv.FormatInt(off, 10) }
+func posStr(file string, off int64) string {
+	return hx([]byte(file)) + ":" + strconv.FormatInt(off, 10)
+}
 
 const firstFile = "bin.000001"
 
@@ -214,7 +216,9 @@ type colKind struct{ typ, md int }
 
 func randColumn(r *RNG, allowTZ bool) colKind {
 	for {
-		switch r.Intn(24) {
+		switch r.Intn(25) {
+		case 24:
+			return colKind{245, r.Pick(4, 4, 4, 2, 3)}
 		case 0:
 			return colKind{1, 0}
 		case 1:
@@ -316,6 +320,25 @@ func randValue(r *RNG, c colKind, ext map[string][]string) string {
 	case 16:
 		nb := (c.md>>8)*8 + c.md&0xff
 		return "bit:" + hx(r.Bytes((nb+7)/8))
+	case 245: // JSON: a small document serialised by the Spec's writer; the cell is length prefix (md bytes) + document
+		if theDriver != nil {
+			for try := 0; try < 4; try++ {
+				g := &jgen{r: r, maxFan: 4, budget: 400, noDouble: true}
+				ans, err := theDriver.Ask("jdoc doc=" + g.doc(2))
+				if err != nil {
+					continue
+				}
+				f := fields(ans)
+				doc := unhx(f["bytes"])
+				if len(doc) == 0 || f["spec"] == "" || len(doc) >= 1<<(8*uint(c.md)) && c.md < 4 {
+					continue
+				}
+				cell := append(leBytes(uint64(len(doc)), c.md), doc...)
+				ext["jtext"] = append(ext["jtext"], hx(cell)+":"+f["spec"])
+				return "jraw:" + hx(cell)
+			}
+		}
+		return "N"
 	case 247: // ENUM announced under its own type code (md = pack size)
 		return fmt.Sprintf("en:%d:%d", c.md, r.U64()&(1<<(8*uint(c.md))-1))
 	case 248: // SET under its own type code (never sent by a master): the decoder hands out the md raw bytes
@@ -404,6 +427,9 @@ func leBytes(v uint64, w int) []byte {
 // integer columns use "raw" bytes + a text computed here? No: the Spec must state the text. We therefore
 // emit i:/u: values; rawInt rewrites the placeholder once the column's signedness is known.
 func fixInt(v string, c hCol) string {
+	if strings.HasPrefix(v, "jraw:") { // a JSON cell: really raw bytes
+		return v[1:]
+	}
 	if !strings.HasPrefix(v, "raw:") {
 		return v
 	}
